@@ -106,7 +106,16 @@ func runC04Virtual(c *c04Case) *c04Obs {
 	if c.IdleMs > 0 {
 		time.Sleep(time.Duration(c.IdleMs) * time.Millisecond)
 	}
-	c04Drive(c, cc, sc, col, obs, 10*time.Minute)
+	sendTimeout := 10 * time.Minute
+	if c.SlowEvery > 0 {
+		// a send may have to wait for every envelope in front of it to be consumed, each after a pause: its context must live that long
+		n := 0
+		for _, l := range append(append([][]c04Op{}, c.C2S...), c.S2C...) {
+			n += len(l)
+		}
+		sendTimeout += time.Duration(n+1) * time.Duration(c.SlowMs) * time.Millisecond * 2
+	}
+	c04Drive(c, cc, sc, col, obs, sendTimeout)
 	synctest.Wait() // everything that can be delivered has been ...
 	if c.SlowEvery > 0 {
 		// ... unless the consumer is pausing: then wait for as long as it keeps making progress
